@@ -46,8 +46,9 @@ def store_case(rows, m, p, n):
     create_call_trace_table(conn)
     store = SQLiteStore(conn)
     full = [(r[0], r[1], JSON_COL[r[2]], JSON_COL[r[3]], JSON_COL[r[4]]) for r in rows]
+    days = [(r[5] if len(r) > 5 else 0) for r in rows]  # which of two days the row was written on
     with conn:
-        conn.executemany(f"INSERT INTO {DEFAULT_TABLE} VALUES ('2020-01-01 00:00:00', ?, ?, ?, ?, ?)", full)
+        conn.executemany(f"INSERT INTO {DEFAULT_TABLE} VALUES (?, ?, ?, ?, ?, ?)", [(f"2020-01-0{1 + d} 00:00:00",) + f for d, f in zip(days, full)])
     got = [(t.module, t.qualname, t.arg_types, t.return_type, t.yield_type) for t in store.filter(m, p, n)]
     want_all = spec_filter(full, m, p, n)
     d = len(want_all)
